@@ -99,7 +99,73 @@ def inline_body(bodies, d, should_inline, stack=(), depth=0):
                 else:
                     nb["term"] = {"k": "unreachable", "span": nb["term"]["span"]}
             nd["blocks"].append(nb)
+        _thread_returns(nd, boff, len(cd["blocks"]), t, loff, ret_ty)
         done.append(c)
         done += sub
     nd["inlined"] = sorted(set(done))
     return nd, done
+
+
+def _thread_returns(nd, boff, nblk, call_term, loff, ret_ty):
+    """Jump threading across an inlined call that returns `Option`/`Result`: a callee path that stores
+    a literal variant in the return place and the caller's `match` on that value are connected
+    directly, so the infeasible combination (the `None` path entering the `Some` arm) is not a CFG path.
+    The return block and the caller's dispatch block are duplicated per threaded predecessor; the
+    originals stay for everything else."""
+    if not (ret_ty.startswith("std::option::Option<") or ret_ty.startswith("std::result::Result<")):
+        return
+    T = call_term.get("target")
+    dest = call_term["dest"]
+    if T is None or dest["proj"]:
+        return
+    tblk = nd["blocks"][T]
+    tt = tblk["term"]
+    if tt["k"] != "switch" or tt["discr"].get("k") not in ("copy", "move") or tt["discr"]["place"]["proj"]:
+        return
+    dl = tt["discr"]["place"]["local"]
+    # the dispatch block must compute the discriminant of (a copy of) the call's destination
+    src = {dest["local"]}
+    okd = False
+    for st in tblk["stmts"]:
+        if st["k"] != "assign" or st["place"]["proj"]:
+            continue
+        rv = st["rv"]
+        if rv["k"] == "use" and rv["op"].get("k") in ("copy", "move") and not rv["op"]["place"]["proj"] and rv["op"]["place"]["local"] in src:
+            src.add(st["place"]["local"])
+        if rv["k"] == "discr" and not rv["place"]["proj"] and rv["place"]["local"] in src and st["place"]["local"] == dl:
+            okd = True
+    if not okd:
+        return
+    # T must be entered only from the inlined callee's return blocks
+    rng = range(boff, boff + nblk)
+    for i, blk in enumerate(nd["blocks"]):
+        if i in rng or blk["cleanup"]:
+            continue
+        tm = blk["term"]
+        tg = [tm.get("target"), tm.get("otherwise")] + [x for _, x in tm.get("cases", [])]
+        if T in tg:
+            return
+    ret_local = loff
+    ret_blocks = [i for i in rng if nd["blocks"][i]["term"]["k"] == "goto" and nd["blocks"][i]["term"].get("target") == T
+                  and any(st.get("inline_ret") for st in nd["blocks"][i]["stmts"])]
+    for rb in ret_blocks:
+        for p in list(rng):
+            pt = nd["blocks"][p]["term"]
+            if pt["k"] != "goto" or pt.get("target") != rb or nd["blocks"][p]["cleanup"]:
+                continue
+            vi = None
+            for st in nd["blocks"][p]["stmts"]:
+                if st["k"] == "assign" and st["place"]["local"] == ret_local and not st["place"]["proj"]:
+                    rv = st["rv"]
+                    vi = rv.get("vi") if rv["k"] == "aggregate" and rv.get("agg") == "adt" else None
+            # the return block itself must not reassign the return place
+            if vi is None or any(st["k"] == "assign" and st["place"]["local"] == ret_local and not st.get("inline_ret") for st in nd["blocks"][rb]["stmts"]):
+                continue
+            target = tt["otherwise"]
+            for v, tg in tt["cases"]:
+                if v == vi:
+                    target = tg
+            nb = {"cleanup": False, "stmts": copy.deepcopy(nd["blocks"][rb]["stmts"]) + copy.deepcopy(tblk["stmts"]),
+                  "term": {"k": "goto", "target": target, "span": tt["span"], "threaded": True}}
+            nd["blocks"].append(nb)
+            pt["target"] = len(nd["blocks"]) - 1
